@@ -189,7 +189,7 @@ func ruleKeyParams(r *core.Run, id string) {
 	for _, f := range fs {
 		for _, p := range f.Params {
 			n++
-			key := core.Key(id, r.P.Name(f), p.Name())
+			key := core.Key(id, r.KeyName(f), p.Name())
 			used := false
 			if refs := p.Referrers(); refs != nil {
 				for _, ref := range *refs {
